@@ -419,7 +419,7 @@ def unpack(format: str, buffer: bytes) -> tuple[Any, ...]:
             format = ">h"
         elif 5 <= len(representation.digit_groups[1]) < 10:
             format = ">i"
-        elif 10 <= len(representation.digit_groups[1]) < 18:
+        elif 10 <= len(representation.digit_groups[1]) <= 18:
             format = ">q"
         else:  # pragma: no cover
             raise ValueError(f"Usage {representation!r} too large")
